@@ -25,6 +25,7 @@ type Program struct {
 	initPkgs   []*ssa.Package // packages whose init is executed, in dependency order
 	pkgByPath  map[string]*ssa.Package
 	methodSets sync.Mutex
+	harnessFn  sync.Map
 }
 
 type fnInfo struct {
@@ -477,11 +478,25 @@ func (m *Machine) visitInstr(fr *frame, instr ssa.Instruction) continuation {
 		switch x := x.(type) {
 		case *MapV:
 			fr.set(instr, &mapIter{m: x})
+		case Str:
+			m.needConcreteStr(x, "range")
+			fr.set(instr, &strIter{s: x, off: mkInt(64, 0)})
 		default:
 			panic(unsupported(fmt.Sprintf("range over %T", x)))
 		}
 
 	case *ssa.Next:
+		if si, ok := fr.get(instr.Iter).(*strIter); ok {
+			if si.i >= len(si.s.R) {
+				fr.set(instr, tuple{falseT, mkInt(64, 0), mkBV(32, 0)})
+			} else {
+				r := si.s.R[si.i]
+				fr.set(instr, tuple{trueT, si.off, m.sanitizeRune(r)})
+				si.off = m.ctx.Add(si.off, m.utf8Len(r))
+				si.i++
+			}
+			break
+		}
 		it := fr.get(instr.Iter).(*mapIter)
 		if it.m == nil || it.i >= len(it.m.keys) {
 			fr.set(instr, tuple{falseT, zero(instr.Type().(*types.Tuple).At(1).Type()), zero(instr.Type().(*types.Tuple).At(2).Type())})
@@ -620,9 +635,29 @@ func (m *Machine) registerFresh(p *value) {
 	}
 }
 
+// isHarnessFn: the function is part of the overlay (harness / seam) sources.
+func (m *Machine) isHarnessFn(fn *ssa.Function) bool {
+	if v, ok := m.prog.harnessFn.Load(fn); ok {
+		return v.(bool)
+	}
+	f := fn
+	for f.Parent() != nil {
+		f = f.Parent()
+	}
+	res := false
+	if f.Pos().IsValid() {
+		res = strings.Contains(m.prog.fset.Position(f.Pos()).Filename, "zz_verif_")
+	}
+	m.prog.harnessFn.Store(fn, res)
+	return res
+}
+
 func (m *Machine) noteWrite(fr *frame, p *value) {
 	if !m.wsActive {
 		return
+	}
+	if fr == nil || m.isHarnessFn(fr.fn) {
+		return // stores performed by the harness itself are not the library's
 	}
 	if _, ok := m.cellBorn[p]; ok {
 		return
